@@ -271,7 +271,8 @@ BaseStep(c, K, tol, a, s, legs, st, frac) ==
 \* states it) less fixed costs  a.fixrate = scale x cost rate  per tick of its active duration -- not discounted.
 AssetStep(c, K, tol, a, s, legs, st, frac) ==
   LET r == BaseStep(c, K, tol, a, s, legs, st, frac) IN
-  IF "fixrate" \in DOMAIN a /\ Active(c, a, s)
+  \* the fixed costs run over the scaled asset's OWN window [fws, fwe), which need not be the window of its base asset
+  IF "fixrate" \in DOMAIN a /\ 1 <= s /\ s <= c.T /\ a.fws <= s /\ s < a.fwe
   THEN [r EXCEPT !.cost = @ + a.fixrate * c.dt[s] * c.DEN * c.VS * K]
   ELSE r
 
